@@ -82,10 +82,85 @@ func c10SizeSweep(c *sim.Ctx) *sim.Violation {
 	return nil
 }
 
+// countWriter keeps the first 8 bytes and counts the rest.
+type countWriter struct {
+	head  []byte
+	n     int
+	calls int
+}
+
+func (w *countWriter) Write(p []byte) (int, error) {
+	w.calls++
+	if k := 8 - len(w.head); k > 0 {
+		if k > len(p) {
+			k = len(p)
+		}
+		w.head = append(w.head, p[:k]...)
+	}
+	w.n += len(p)
+	return len(p), nil
+}
+
+// c10Limit: PUBLISH packets at and just beyond the largest size MQTT can frame
+// (remaining length 268 435 455). At the limit everything C10 says holds. Beyond
+// it no frame exists: the packet is malformed-but-constructible, and a library
+// may either refuse it (an error, NOTHING written) or write what it writes
+// with a truthful count - n == bytes handed to the writer == 1 + the length
+// field it wrote + the value in that field == the size String() prints.
+func c10Limit(c *sim.Ctx, rl int) *sim.Violation {
+	p := mq.NewPublish()
+	p.SetTopicName("t")
+	p.SetPayload(make([]byte, rl-4))
+	w := &countWriter{}
+	var n int64
+	var err error
+	if pi := sim.Guard(func() { n, err = p.WriteTo(w) }); pi != nil {
+		return sim.V("C10/PUBLISH/limit/panic:"+pi.Site, "PUBLISH with remaining length %d: WriteTo panicked: %s", rl, pi.Value)
+	}
+	over := rl > 268435455
+	what := fmt.Sprintf("PUBLISH with remaining length %d (the largest MQTT can frame is 268435455): WriteTo -> n=%d err=%v; the writer was handed %d bytes in %d calls, first bytes %x", rl, n, err, w.n, w.calls, w.head)
+	if err != nil {
+		if !over {
+			return sim.V("C10/PUBLISH/limit/error-from-accepting-writer", "%s", what)
+		}
+		if w.n != 0 || n != 0 {
+			return sim.V("C10/PUBLISH/limit/refused-but-bytes-emitted", "%s", what)
+		}
+		c.Count("probe.over-limit-packet-refused")
+		return nil
+	}
+	// lenient reading of the length field (up to 5 bytes)
+	val, width := 0, 0
+	for i := 1; i < len(w.head) && i <= 5; i++ {
+		val |= int(w.head[i]&0x7f) << (7 * uint(i-1))
+		width = i
+		if w.head[i]&0x80 == 0 {
+			break
+		}
+	}
+	if int(n) != w.n || w.n != 1+width+val || (!over && (width != 4 || val != rl)) {
+		return sim.V("C10/PUBLISH/limit/count", "%s\nlength field of %d bytes holding %d", what, width, val)
+	}
+	var str string
+	sim.Guard(func() { str = p.String() })
+	if sz, ok := stringSize(str); !ok || sz != w.n {
+		return sim.V("C10/PUBLISH/limit/String-size", "%s\nString() = %q", what, str)
+	}
+	c.Count(fmt.Sprintf("probe.remaining-length-at-or-beyond-the-limit(over=%v)", over))
+	c.DistinctStr(fmt.Sprintf("limit/%d", rl))
+	return nil
+}
+
 func runC10(c *sim.Ctx) *sim.Violation {
 	t := c.T
 	if c.Run < c10SweepRuns {
 		return c10SizeSweep(c)
+	}
+	if c.Run >= c10SweepRuns+4 && c.Run < c10SweepRuns+6 {
+		return c10Limit(c, []int{268435455, 268435456}[c.Run-c10SweepRuns-4])
+	}
+	if c.Thorough && c.Run >= c10SweepRuns+6 && c.Run < c10SweepRuns+12 {
+		return c10Limit(c, []int{268435454, 268435451, 268435457, 268435456 + 127, 268435450, 300000000}[c.Run-c10SweepRuns-6])
 	}
 	// Undefined: cannot be serialised
 	if t.Bool(1, 40) {
